@@ -100,9 +100,9 @@ def check(prop, tier, seed):
             for sig, rep in found:
                 races.setdefault(sig, (name, rep))
             if p.returncode not in (0, 66):
-                raise Infra("multi-conn (race build) failed on %s: %s" % (name, se[-1500:]))
+                run.driver_failed("multi-conn (race build) failed on %s" % (name), se)
         elif p.returncode != 0:
-            raise Infra("multi-conn failed on %s: %s" % (name, se[-2000:]))
+            run.driver_failed("multi-conn failed on %s" % (name), se)
         try:
             stats[name] = json.loads(so.strip().splitlines()[-1])
         except Exception:
